@@ -15,6 +15,7 @@ import (
 
 // Ctx is shared by all rules of one run.
 type Ctx struct {
+	modelTypes map[*types.TypeName]bool
 	trvRoleCache      *trvRoleNames
 	P                 *prog.Program
 	Tier              string
